@@ -111,10 +111,12 @@ func checkC03(c *Ctx) {
 	checkBinderLoops(c, ev)
 	checkInnerArraysKept(c, "C03.R2.inner-arrays-kept", ev)
 	checkBodyStreamNotClosed(c, ev)
-	checkSliceValidatorSeesValue(c, ev)
+	checkSliceValidatorSeesValue(c, "C03.R2.validated-value", ev)
 	checkInnerValidatorUnconditional(c, ev)
 	checkRangeFilters(c, "C03.R2.range-filters", ev, reviewedRangeFilters, 25)
 	checkDefaultInitAgreement(c, ev)
+	checkFormatGuards(c, "C03.R2.format-guards", ev, 2)
+	checkFreshParams(c, ev)
 
 	// ---- R3 Go side
 	checkParamFlags(c, "C03.R3.flags", gen)
@@ -659,8 +661,7 @@ func checkBodyStreamNotClosed(c *Ctx, ev *tmpl.Evaluator) {
 // checkSliceValidatorSeesValue: the slice validator of a body array reads the parameter's field
 // (o.X), not the local `body`: wherever the body validator calls it, the field has been assigned
 // from the decoded body just before, under the same conditions.
-func checkSliceValidatorSeesValue(c *Ctx, ev *tmpl.Evaluator) {
-	rule := "C03.R2.validated-value"
+func checkSliceValidatorSeesValue(c *Ctx, rule string, ev *tmpl.Evaluator) {
 	c.Rule(rule, "in the body validator, every call of the slice validator directly follows the assignment of the decoded body to the parameter's field", 1)
 	l := linearOf(c, ev, "bodyvalidator")
 	if l == nil {
@@ -731,5 +732,43 @@ func checkInnerValidatorUnconditional(c *Ctx, ev *tmpl.Evaluator) {
 	}
 	if n == 0 {
 		c.Unk(rule, "sliceparambinder › slice validator calls", l.Tree.File, "none found")
+	}
+}
+
+// checkFreshParams: the value the binder fills is built anew for every request —
+// New<Op>Params() returns a composite literal, not something kept between calls. Defaults are
+// pointers and slices: a remembered struct hands the same ones to every request.
+func checkFreshParams(c *Ctx, ev *tmpl.Evaluator) {
+	rule := "C03.R2.fresh-params"
+	c.Rule(rule, "New<Op>Params() returns a freshly built <Op>Params literal at every return (no value remembered between requests)", 1)
+	l := linearOf(c, ev, "serverParameter")
+	if l == nil {
+		c.Anchor(rule, "template serverParameter", "not found")
+		return
+	}
+	start := strings.Index(l.Text, "func New⟦pascalize .Name⟧Params()")
+	if start < 0 {
+		c.Anchor(rule, "serverParameter › func New<Op>Params()", "not found")
+		return
+	}
+	end := strings.Index(l.Text[start:], "\n}\n")
+	if end < 0 {
+		end = len(l.Text) - start
+	}
+	body := l.Text[start : start+end]
+	n := 0
+	for _, m := range regexp.MustCompile(`\breturn\b[^\n]*`).FindAllStringIndex(body, -1) {
+		stmt := strings.TrimSpace(body[m[0]:m[1]])
+		n++
+		ok := strings.HasPrefix(stmt, "return ⟦pascalize .Name⟧Params{")
+		c.Check(ok, rule, fmt.Sprintf("server/parameter.gotmpl › New<Op>Params › return #%d is a literal", n), l.Tree.PosStr(l.PosAt(start+m[0])), "returns <Op>Params{…}",
+			fmt.Sprintf("New<Op>Params() ends with `%s`: what it returns is kept between calls, so the pointers and slices that hold the defaults are shared by all requests — a handler that changes one changes the default of the requests that follow", stmt))
+	}
+	if n == 0 {
+		c.Unk(rule, "server/parameter.gotmpl › New<Op>Params › returns", "", "no return statement found in the constructor")
+	}
+	// and nothing at package level is assigned inside it
+	if m := regexp.MustCompile(`(?m)^\s*⟦camelize \.Name⟧\w*\s*=[^=]`).FindString(body); m != "" {
+		c.Bad(rule, "server/parameter.gotmpl › New<Op>Params › no store to a package-level variable", l.Tree.PosStr(l.PosAt(start)), "the constructor stores into a variable named after the operation (`"+strings.TrimSpace(m)+"`): state kept between requests")
 	}
 }
